@@ -96,17 +96,9 @@ class FakeOS:
     def write(self, fd, data): return self.sock.send(bytes(data))
 
 
-_PT = []
-
-
 def PIPE_TOLERANT():
     """generated fact: does PipeStream.read of the tree under test retry on EAGAIN/EWOULDBLOCK?"""
-    if not _PT:
-        try:
-            _PT.append("PipeStream_read_tolerates_wouldblock : bool := true" in open(C.COQ + "/gen/Gen_stream.v").read())
-        except OSError:
-            _PT.append(True)
-    return _PT[0]
+    return C.gen_fact("stream", "PipeStream_read_tolerates_wouldblock")
 
 
 def make_stream(kind, fs):
